@@ -41,6 +41,14 @@ def gen_cases(rng, tier):
         c = libgen.gen_repcode(rng, max_d=3 if tier == 'quick' else 5, max_cycles=5 if tier == 'quick' else 8)
         c['obs'] = ['structure', 'unrolled', 'flat']
         cases.append(c)
+    # the other constructors the statement names: multi-round experiments and the simplified repetition-code constructor
+    for kind, n in (('multi', 6 if tier == 'quick' else 60), ('simplified', 6 if tier == 'quick' else 60)):
+        for _ in range(n):
+            c = libgen.gen_lib_case(rng, kind, max_d=3, max_cycles=3 if tier == 'quick' else 5, env=libgen.gen_env(rng))
+            if kind == 'multi':
+                c['rounds'] = [min(r, 3) for r in c['rounds'][:3]]
+            c['obs'] = ['structure', 'unrolled', 'flat']
+            cases.append(c)
     return cases
 
 
@@ -83,6 +91,19 @@ def block_with_sub_repeated(prog, outer_rep=False):
     return False
 
 
+def struct_block_with_sub_repeated(nodes, outer_rep=False):
+    """the same test on an extracted structure (harness/impl/lib_impl.py: nodes with 'op': {'reps', 'nodes'} for sub-circuits)"""
+    for n in nodes:
+        op = n['op']
+        if 'nodes' in op:
+            rep = op.get('reps', 1) >= 2 or outer_rep
+            if rep and any('nodes' in m['op'] for m in op['nodes']):
+                return True
+            if struct_block_with_sub_repeated(op['nodes'], rep):
+                return True
+    return False
+
+
 def _keys(ops):
     return sorted(json.dumps([e['cls'], e['ch'], e['d'], e.get('tag')]) for e in ops)
 
@@ -103,8 +124,12 @@ def known_class(c, o):
     """F10: after unrolling, the chained copies carry multi-links whose reference group contains a sub-circuit; flatten()
     re-inserts only the leaf operations, the links keep consulting the vanished nested graphs: RecursionError (cyclic
     relations) or a listing that a second flatten() changes.  The class excuses only the unrolled half of a case."""
-    if 'error' in o or c.get('k'):
+    if 'error' in o:
         return None
+    if c.get('k'):
+        # library circuits: the same class, read off the structure the constructor really built (a repeated block holding a
+        # sub-circuit: the simplified repetition-code constructor with >= 2 cycles)
+        return F10_CLASS if c['k'] == 'simplified' and struct_block_with_sub_repeated(o.get('structure', [])) else None
     if block_with_sub_repeated(c['prog']) and fexp_ok_py(o.get('flat_plain')) and not fexp_ok_py(o.get('flat_unrolled')):
         return F10_CLASS
     return None
@@ -112,7 +137,7 @@ def known_class(c, o):
 
 def nontrivial(c, o):
     if c.get('k'):
-        return c['cycles'] >= 2
+        return c.get('cycles', max(c.get('rounds', [0]) or [0])) >= 2
     return coregen.has_sub(c['prog']) and coregen.n_leaves(c['prog']) >= 2
 
 
@@ -129,13 +154,16 @@ def sample(c, o):
 
 
 LEVEL_TEXT = 'Coq theorems over the model of apply_flatten_to_self (re-insertion of the decomposed listing, fallback branch included): when the model is defined the flat graph has one leaf node per listed leaf, in listing order, unchanged; no sub-circuit remains; it is well-formed; the listed multiset is unchanged; flattening a flat result again reproduces the same listing and times; the model is undefined exactly when a multi-link keeps a vanished sub-circuit among its members (finding F10, witness proved). Library circuits: order, schedule, indices and Stim normal form are compared before/after flatten on the implementation.'
-LEVEL_NOTE = 'Trusted: Coq kernel, Core model tied by correspondence on implicitly sequenced nested programs and library circuits. F10 is a recorded known finding (class: flatten after unrolling a repeated block that contains a sub-circuit). No axioms.'
+LEVEL_NOTE = 'Trusted: Coq kernel, Core model tied by correspondence on implicitly sequenced nested programs and library circuits. F10 is a recorded known finding (class: flatten after unrolling a repeated block that contains a sub-circuit; among the library constructors that is the simplified repetition-code constructor with >= 2 cycles; the full and the multi-round constructors are checked and pass). No axioms.'
 TECHNIQUE = 'Coq proof over an executable model + correspondence evaluated by vm_compute'
 
 
 def shrink_candidates(case):
     if case.get('k'):
-        if case['cycles'] > 0:
+        if case.get('cycles', 0) > 0:
             yield dict(case, cycles=case['cycles'] - 1)
+        if len(case.get('rounds', [])) > 1:
+            yield dict(case, rounds=case['rounds'][:-1])
+            yield dict(case, rounds=case['rounds'][1:])
         return
     yield from coregen.shrink_candidates(case)
